@@ -49,12 +49,21 @@ READER = {"enum": ("decIntK", ", 4", "decIntV", "decIntP", "{V}"), "int": ("decI
 def scalar_struct(mem):
     return all(m[2] in SCALAR for m in mem) and len(mem) > 0
 
+def scalar_prefix(mem):
+    """the members (ascending tags) before the first member of container or struct type"""
+    out = []
+    for m in sorted(mem):
+        if m[2] not in SCALAR:
+            break
+        out.append(m)
+    return out
+
 def default_of(ity, dflt):
     if dflt is None:
         return None
     return dflt
 
-def reader_schema(pkg, ty, mem, fields):
+def reader_schema(pkg, ty, mem, fields, whole=True):
     """lets and ensures of ReadFrom for a scalar struct: the schema-directed reference decoder.
     q<k> is the cursor after member k; k<k> its outcome (0 present, 1 absent); ok<k>: all members so far are
     present or cleanly absent. A member that is present gets the decoded value, an absent optional member keeps
@@ -76,7 +85,8 @@ def reader_schema(pkg, ty, mem, fields):
         absent = d if d is not None else "old(%s)" % f
         ens.append("//@   ensures [C04] (ok%d && err == nil) ==> %s == (k%d == 0 ? %s : %s)" % (n, f, n, val, absent))
         ens.append("//@   ensures [C06] (%sk%d == 2) ==> err != nil" % (("ok%d && " % (n - 1)) if n > 1 else "", n))
-    ens.append("//@   ensures [C04] ok%d ==> (err == nil && readBuf.buf.i == q%d)" % (prev_ok, prev_ok))
+    if whole:
+        ens.append("//@   ensures [C04] ok%d ==> (err == nil && readBuf.buf.i == q%d)" % (prev_ok, prev_ok))
     return lets, ens
 
 def idl_structs(pkg):
@@ -190,22 +200,23 @@ def gen(pkg):
             o += schema_contract(pkg, ty, idl[ty], go_fields(src, ty))
         if name == "ResetDefault":
             dfl = []
-            if ty in idl and scalar_struct(idl[ty]):
+            if ty in idl:
                 flds = go_fields(src, ty)
-                dfl = [("st." + flds[n][0], d) for (_, _, _, n, d) in sorted(idl[ty]) if d is not None]
+                dfl = [("st." + flds[n][0], d) for (_, _, ity, n, d) in sorted(idl[ty]) if d is not None and ity in SCALAR]
             o += ["//@ func (*%s).ResetDefault" % ty, "//@   requires st != nil"]
             if dfl:
                 o += ["//@   modifies " + ", ".join(f for f, _ in dfl),
                       "//@   ensures [C04] " + " && ".join("%s == %s" % (f, d) for f, d in dfl)]
-            elif ty in idl and scalar_struct(idl[ty]):
+            elif ty in idl:
                 o += ["//@   pure"]
             else:
                 o += ["//@   modifies *st"]
             o += ["//@   safety [C05]", "//"]
         elif name == "ReadFrom":
             lets, ens = [], []
-            if ty in idl and scalar_struct(idl[ty]):
-                lets, ens = reader_schema(pkg, ty, idl[ty], go_fields(src, ty))
+            if ty in idl and scalar_prefix(idl[ty]):
+                pre = scalar_prefix(idl[ty])
+                lets, ens = reader_schema(pkg, ty, pre, go_fields(src, ty), whole=(len(pre) == len(idl[ty])))
                 lets = ["//@   let src = readBuf.buf.src", "//@   let d0 = readBuf.depth"] + lets + ["//@   opaque [C04,C06] *", "//@   perreturn"]
             o += ["//@ func (*%s).ReadFrom" % ty,
                   "//@   requires st != nil && validR(readBuf)",
